@@ -475,39 +475,60 @@ def fixed_width_record_scenarios(ctx, home):
              "field-widened": ([f("x"), f("y")], [f("x"), ("y", P("float64"))])}
     for name, (fo, fn) in cases.items():
         old, new = pkgs(fo, fn)
-        base = os.path.join(ctx.workdir, "cases", "fixedwidth_" + name)
+        _evolve_pair(ctx, home, "fixed-width", "fixed-width record", name, old, new)
+    # an unchanged generic record of fixed-width fields instantiated with an alias whose primitive type changed, and with a changed record
+    def gen(num_t, rec_fields, versions, d):
+        return Pkg("Evo", [Rec("Pair", [("a", TP("T")), ("b", TP("T"))], ("T",)), Al("MyNum", P(num_t)), Rec("Inner", rec_fields),
+                           Proto("Evo", [("p", N("Pair", (N("MyNum"),))), ("pts", V(N("Pair", (N("MyNum"),)))), ("fixed", V(N("Pair", (N("MyNum"),)), 3)), ("s", S(N("Pair", (N("MyNum"),)))),
+                                         ("pi", V(N("Pair", (N("Inner"),)))), ("end", P("int32"))])], [], versions, d)
+    fi = [("x", P("float32")), ("y", P("float32"))]
+    gcases = {"alias-widened": (gen("float32", fi, [], "v0"), lambda o: gen("float64", fi, [("v0", o)], "v1")),
+              "alias-narrowed-int": (gen("int64", fi, [], "v0"), lambda o: gen("float64", fi, [("v0", o)], "v1")),
+              "argument-record-changed": (gen("float32", fi, [], "v0"), lambda o: gen("float32", fi + [("z", P("float32"))], [("v0", o)], "v1"))}
+    for name, (old, mk_new) in gcases.items():
+        _evolve_pair(ctx, home, "generic-instance", "unchanged generic record instantiated with a changed type", name, old, mk_new(old))
+
+
+def _evolve_pair(ctx, home, tag, what, name, old, new):
+    """generates `new` (which lists `old` as v0) and `old` alone, reads v0 streams with the newest reader (batch capacities 1 and 4) and writes v0
+    with the newest writer; values against the documented conversion"""
+    if True:
+        base = os.path.join(ctx.workdir, "cases", "%s_%s" % (tag.replace("-", ""), name))
         shutil.rmtree(base, ignore_errors=True)
         common.write_tree(base, emit.package_files(new, None, emit.default_outputs("../out_new", python=False, cpp_opts=cxx.cpp_gen_options({"generateNDJson": False}))))
         common.write_tree(os.path.join(base, "solo"), emit.package_files(old, None, emit.default_outputs("../out_old", python=False, cpp_opts=cxx.cpp_gen_options({"generateNDJson": False}))))
         p1 = cli.run_cli("generate", os.path.join(base, new.dir), home)
         p0 = cli.run_cli("generate", os.path.join(base, "solo", old.dir), home)
         ctx.ev(2)
-        ctx.case(("fixed-width", name))
+        ctx.case((tag, name))
         if p1.rc != 0 or p0.rc != 0:
-            ctx.violation("rejected:fixed-width:%s" % name, "documented change of a fixed-width record rejected: %s" % cli.clean(p1.stderr + p0.stderr)[:300], {"case_dir": base})
-            continue
+            ctx.violation("rejected:%s:%s" % (tag, name), "%s (%s) rejected: %s" % (what, name, cli.clean(p1.stderr + p0.stderr)[:300]), {"case_dir": base})
+            return
         lit = lambda path: re.search(r'std::string EvoWriterBase::schema_ = R"\((.*?)\)";', open(path).read(), re.S).group(1)
         sch_old, sch_new = lit(os.path.join(base, "solo/out_old/cpp/protocols.cc")), lit(os.path.join(base, "out_new/cpp/protocols.cc"))
         try:
             exe_new = cxx.build(os.path.join(base, "out_new/cpp"), "plain")
             exe_old = cxx.build(os.path.join(base, "solo/out_old/cpp"), "plain")
         except cxx.CompileError as e:
-            ctx.violation("cpp-compile-failed:fixed-width", "%s: generated code does not compile: %s" % (name, str(e)[-400:]), {"case_dir": base})
-            continue
+            ctx.violation("cpp-compile-failed:%s" % tag, "%s, %s: generated code does not compile: %s" % (what, name, str(e)[-400:]), {"case_dir": base})
+            return
         co, cn = Codec(old), Codec(new)
         po, pn = old.find("Evo"), new.find("Evo")
         bad = False
         for k in range(3):
-            vo = values.ValueGen(co, rng("C05fw", name, k), quiet_nan_only=True, max_len=5).steps(po, stream_len=[1, 3, 6][k])
-            want = conv_protocol(co, po, cn, pn, vo)
+            vo = values.ValueGen(co, rng("C05fw", tag, name, k), quiet_nan_only=True, max_len=5).steps(po, stream_len=[1, 3, 6][k])
+            try:
+                want = conv_protocol(co, po, cn, pn, vo)
+            except OutOfRange:
+                want = None
             data = co.encode_stream(po, sch_old, vo)
-            for bufs in (None, "4"):
+            for bufs in ((None, "4") if want is not None else ()):
                 pr = cxx.run_driver(exe_new, ["Evo", "bin", "bin"] + (["--bufs", bufs] if bufs else []), data, "plain")
                 ctx.ev()
-                ctx.count("fixed-width.read-old")
-                if not judge(ctx, cn, pn, want, pr, sch_new, "fixed-width record, %s: v0 stream read by the newest reader (batch capacity %s)" % (name, bufs or 1), {"case_dir": base}, "read-old"):
+                ctx.count(tag + ".read-old")
+                if not judge(ctx, cn, pn, want, pr, sch_new, what + ", %s: v0 stream read by the newest reader (batch capacity %s)" % (name, bufs or 1), {"case_dir": base}, "read-old"):
                     bad = True
-            vn = values.ValueGen(cn, rng("C05fww", name, k), quiet_nan_only=True, max_len=5).steps(pn, stream_len=[1, 3, 6][k])
+            vn = values.ValueGen(cn, rng("C05fww", tag, name, k), quiet_nan_only=True, max_len=5).steps(pn, stream_len=[1, 3, 6][k])
             try:
                 want_o = [conv_protocol(cn, pn, co, po, vn)]
             except OutOfRange:
@@ -516,11 +537,11 @@ def fixed_width_record_scenarios(ctx, home):
             for bufs in (None, "4"):
                 pr = cxx.run_driver(exe_new, ["Evo", "bin", "bin", "--version", "v0"] + (["--bufs", bufs] if bufs else []), datan, "plain")
                 ctx.ev()
-                ctx.count("fixed-width.write-old")
-                if judge(ctx, co, po, want_o, pr, sch_old, "fixed-width record, %s: newest writer targeting v0 (batch capacity %s)" % (name, bufs or 1), {"case_dir": base}, "write-old", alternatives=True):
+                ctx.count(tag + ".write-old")
+                if judge(ctx, co, po, want_o, pr, sch_old, what + ", %s: newest writer targeting v0 (batch capacity %s)" % (name, bufs or 1), {"case_dir": base}, "write-old", alternatives=True):
                     pr2 = cxx.run_driver(exe_old, ["Evo", "bin", "bin"], pr.out, "plain")
                     ctx.ev()
-                    if not judge(ctx, co, po, want_o, pr2, sch_old, "fixed-width record, %s: v0's own reader on the newest writer's output" % name, {"case_dir": base}, "old-reader", alternatives=True):
+                    if not judge(ctx, co, po, want_o, pr2, sch_old, what + ", %s: v0's own reader on the newest writer's output" % name, {"case_dir": base}, "old-reader", alternatives=True):
                         bad = True
                 else:
                     bad = True
